@@ -235,8 +235,9 @@ def sanitizeImageData (r : RS) (k : Nat) (w h : Nat) : WP RS :=
 
 /-- VP8L chunk: `parse_data::<Vp8lChunk>()`, optional dimension check, `sanitize_image_data`, `skip_data` -/
 def vp8lChunk (r : RS) (k : Nat) (expect : Option (Nat × Nat)) : WP RS :=
-  (readData r k 5).bind fun (b, r) =>
-    match Vp8l.parseVp8lHeader (ByteArray.mk b.toArray) with
+  (readData r k 5).bind fun x =>
+    let r := x.2
+    match Vp8l.parseVp8lHeader (ByteArray.mk x.1.toArray) with
     | .error .invalidInput => .fail .invalidInput
     | .error .unsupportedVersion => .fail .unsupportedVp8lVersion
     | .ok (w, h) =>
